@@ -72,3 +72,95 @@ func TestVerifC03Replay(t *testing.T) {
 		c.Done()
 	}
 }
+
+// TestVerifC03Exhaustive enumerates EVERY history of up to VERIF_C03_EXH_LEN (default 4) operations from a
+// symbolic alphabet over 3 prefix-related keys (set two values, create-only cas, cas/delete-cas with the current
+// and with a stale index, delete, delete-tree of two prefixes, lock/unlock by two sessions, destroy of a session
+// with release and with delete behaviour), resolved against the store at execution time, and runs each through
+// the same model comparison. Sharded by the first operation.
+func TestVerifC03Exhaustive(t *testing.T) {
+	rec := verifkit.For("C03")
+	defer rec.Flush()
+	maxLen := verifkit.EnvInt("VERIF_C03_EXH_LEN", 4)
+	shard, nshards := verifkit.EnvInt("VERIF_SHARD", 0), verifkit.EnvInt("VERIF_NSHARDS", 1)
+	keys := []string{"a", "a/b", "ab"}
+	pool := vs.SessionPool(2)
+	type sym struct {
+		name string
+		mk   func(x *verifKVMachine, idx uint64) *vs.Op
+	}
+	var alphabet []sym
+	cur := func(x *verifKVMachine, k string) uint64 {
+		if e := x.w.KVEntry(k); e != nil {
+			return e.ModifyIndex
+		}
+		return 0
+	}
+	for _, k := range keys {
+		k := k
+		alphabet = append(alphabet,
+			sym{"set1:" + k, func(x *verifKVMachine, i uint64) *vs.Op { return vs.NewKV(vs.KVSet, i, k, []byte("v1"), 0, 0, "") }},
+			sym{"set2:" + k, func(x *verifKVMachine, i uint64) *vs.Op { return vs.NewKV(vs.KVSet, i, k, []byte("v2"), 1, 0, "") }},
+			sym{"cas0:" + k, func(x *verifKVMachine, i uint64) *vs.Op { return vs.NewKV(vs.KVCAS, i, k, []byte("v1"), 0, 0, "") }},
+			sym{"cascur:" + k, func(x *verifKVMachine, i uint64) *vs.Op { return vs.NewKV(vs.KVCAS, i, k, []byte("v2"), 0, cur(x, k), "") }},
+			sym{"casstale:" + k, func(x *verifKVMachine, i uint64) *vs.Op { return vs.NewKV(vs.KVCAS, i, k, []byte("v2"), 0, cur(x, k)+1, "") }},
+			sym{"del:" + k, func(x *verifKVMachine, i uint64) *vs.Op { return vs.NewKV(vs.KVDelete, i, k, nil, 0, 0, "") }},
+			sym{"delcascur:" + k, func(x *verifKVMachine, i uint64) *vs.Op { return vs.NewKV(vs.KVDeleteCAS, i, k, nil, 0, cur(x, k), "") }},
+			sym{"lock0:" + k, func(x *verifKVMachine, i uint64) *vs.Op { return vs.NewKV(vs.KVLock, i, k, []byte("v1"), 0, 0, pool[0]) }},
+			sym{"lock1:" + k, func(x *verifKVMachine, i uint64) *vs.Op { return vs.NewKV(vs.KVLock, i, k, []byte("v1"), 0, 0, pool[1]) }},
+			sym{"unlock0:" + k, func(x *verifKVMachine, i uint64) *vs.Op { return vs.NewKV(vs.KVUnlock, i, k, []byte("v1"), 0, 0, pool[0]) }},
+		)
+	}
+	alphabet = append(alphabet,
+		sym{"deltree:a", func(x *verifKVMachine, i uint64) *vs.Op { return vs.NewKV(vs.KVDeleteTree, i, "a", nil, 0, 0, "") }},
+		sym{"deltree:a/", func(x *verifKVMachine, i uint64) *vs.Op { return vs.NewKV(vs.KVDeleteTree, i, "a/", nil, 0, 0, "") }},
+		sym{"destroy0", func(x *verifKVMachine, i uint64) *vs.Op { return vs.NewSessDestroy(i, pool[0]) }},
+		sym{"destroy1", func(x *verifKVMachine, i uint64) *vs.Op { return vs.NewSessDestroy(i, pool[1]) }},
+	)
+	reg := &structs.RegisterRequest{Datacenter: "dc1", Node: "n1", ID: vs.NodeIDs["n1"], Address: "10.0.0.1"}
+	prelude := []*vs.Op{
+		vs.NewRegister(11, reg),
+		vs.NewSessCreate(12, &structs.Session{ID: pool[0], Node: "n1", Behavior: structs.SessionKeysRelease}),
+		vs.NewSessCreate(13, &structs.Session{ID: pool[1], Node: "n1", Behavior: structs.SessionKeysDelete}),
+	}
+	n := len(alphabet)
+	var total int64
+	seq := make([]int, 0, maxLen)
+	var run func()
+	run = func() {
+		if len(seq) > 0 {
+			c := rec.NewCase()
+			names := make([]string, len(seq))
+			for i, s := range seq {
+				names[i] = alphabet[s].name
+			}
+			c.Op(names)
+			c.Label("exhaustive")
+			x := verifKVNew("C03", t, c, nil)
+			for _, op := range prelude {
+				x.step(op)
+			}
+			for i, s := range seq {
+				x.step(alphabet[s].mk(x, uint64(20+2*i)))
+			}
+			c.NonTrivial()
+			c.Done()
+			total++
+		}
+		if len(seq) == maxLen {
+			return
+		}
+		for s := 0; s < n; s++ {
+			if len(seq) == 0 && s%nshards != shard {
+				continue
+			}
+			seq = append(seq, s)
+			run()
+			seq = seq[:len(seq)-1]
+		}
+	}
+	run()
+	rec.AddExtraInt("exhaustive_histories", total)
+	rec.SetExtra("exhaustive_alphabet", n)
+	rec.SetExtra("exhaustive_max_len", maxLen)
+}
